@@ -174,9 +174,9 @@ func judge(prop, tier string, seed int, res *runResult, start time.Time, writeBa
 	knownBy := map[string]*KnownFinding{}
 	for i := range known.Findings {
 		k := &known.Findings[i]
-		if k.Property == prop {
-			knownBy[k.Obligation] = k
-		}
+		// a finding is identified by its obligation name; a contract shared by two
+		// properties (e.g. Resolve: C14 and C13) reports it under either
+		knownBy[k.Obligation] = k
 	}
 	for _, e := range res.errs {
 		fmt.Printf("CONTRACT-ERROR: %s\n", e)
@@ -282,9 +282,6 @@ func judge(prop, tier string, seed int, res *runResult, start time.Time, writeBa
 	// report
 	exit := 0
 	for _, kf := range known.Findings {
-		if kf.Property != prop {
-			continue
-		}
 		if seenKnown[kf.Obligation] {
 			fmt.Printf("KNOWN-FINDING: property=%s %s [%s]\n", prop, kf.What, kf.Obligation)
 		}
